@@ -1,4 +1,4 @@
-// Counterexample found by mirsym/z3 for property C21: list operation panics on [[], 0]: called `Option::unwrap()` on a `None` value
+// Counterexample found by mirsym/z3 for property C21: list operation panics on [0 | 0]: called `Option::unwrap()` on a `None` value
 // Replay: /verif/check C21 --replay /verif/replay/cases/C21-list_d1_panic.rs
 use proto_vulcan::prelude::*;
 use std::collections::hash_map::DefaultHasher;
@@ -19,7 +19,7 @@ fn elems(t: &T) -> Vec<T> {
 #[test]
 fn replay() {
     let x: T = LTerm::var("x");
-    let l: T = lterm!([[], 0]);
+    let l: T = lterm!([0 | 0]);
     let xs = elems(&l);
     let it: Vec<T> = l.iter().cloned().collect();
     assert_eq!(it.len(), xs.len(), "iter() length on {}", l);
